@@ -180,9 +180,9 @@ def r_capture(ctx, col, rule="R-CAPTURE"):
                   stmt=f"capture:{tag}")
     # each converter receives its own group, in order: group(i + 1) for transforms[i]
     src = norm_src(p.node)
-    col.shape("for i, trans in enumerate(transforms): vals[i].append(trans(match.group(i + 1)))" in src, rule, p.qualname, p.loc(),
-              "converter i receives capture group i + 1 and fills column i", "", "the converter loop does not pair transforms[i] with group i + 1 and vals[i]",
-              stmt="capture:loop")
+    col.text_group(rule, p.qualname, p, [
+        ("converter i receives capture group i + 1 and fills column i",
+         ["for i, trans in enumerate(transforms): vals[i].append(trans(match.group(i + 1)))"], "converter")], fixed=("transforms", "vals"))
 
 
 def r_pure(ctx, col):
